@@ -348,6 +348,7 @@ theorem FInv_closed : Closed FInv where
   front := fun s f h => ⟨LInv_closed.front s f h.1, LS_front s f h.2⟩
   siteCnt := fun s x h => ⟨LInv_closed.siteCnt s x h.1, LS_of_sview h.2 rfl⟩
   emitInj := fun s a b c d h => ⟨LInv_closed.emitInj s a b c d h.1, LS_emit_plain h.2 _ (fun _ => rfl) (fun _ => rfl)⟩
+  note := fun s h => ⟨LInv_closed.note s h.1, LS_emit_plain h.2 _ (fun _ => rfl) (fun _ => rfl)⟩
   clock := fun s n h => ⟨LInv_closed.clock s n h.1, LS_of_sview h.2 rfl⟩
   lastFlush := fun s n h => ⟨LInv_closed.lastFlush s n h.1, LS_of_sview h.2 rfl⟩
   gone := fun s h => ⟨LInv_closed.gone s h.1, LS_of_sview h.2 rfl⟩
